@@ -1100,8 +1100,8 @@ def _msp_operand(text, source):
         r, x = _msp_reg(m.group("xr")), _num(m.group("x")) & 0xFFFF
         if r == "r2":
             return ("a", "abs", None, x)  # X(SR) is the absolute mode
-        if source and r == "r3":
-            raise _Unknown("X(R3) as a source is the constant #1 and has no index word")
+        # (X(R3) as a source does not exist: As=01/R3 is the constant #1 without an index word;
+        # the reference never prints it, so a printed X(R3) source cannot compare equal)
         return ("a", "idx", r, x)
     if m.group("sym") is not None:  # symbolic mode ADDR = X(PC), printed by the reference as a bare number
         return ("a", "idx", "r0", _num(m.group("sym")) & 0xFFFF)
